@@ -131,6 +131,7 @@ PROPS["C10"] = dict(
 PROPS["C01"] = dict(
     prefix="c01_",
     overlays=[("lib.rs", "vk_c01.rs"), ("parse", "vk_c01p.rs"), ("file", "vk_c01f.rs")],
+    per_harness={r"c01_q_header_.*": dict(mem_gb=14, timeout=1500)},
     bounds="<= 2 entities per chunk (tags, slice keys, external files), names of 0-2 symbolic ASCII bytes, every numeric "
            "attribute over its full encodable range; header with all unused bytes symbolic and 1-2 empty frames; "
            "3 layers for name lookup / iteration",
@@ -193,6 +194,7 @@ PROPS["C05"] = dict(
 PROPS["C13"] = dict(
     prefix="c13_",
     overlays=[("parse", "vk_c13.rs")],
+    per_harness={r"c13_q_(file_cut_anywhere|missing_last_frame)": dict(mem_gb=14, timeout=1500)},
     bounds="one frame of two chunks (layer with symbolic attributes, user data) cut at every offset; whole file = 128-byte header "
            "(unused bytes symbolic) + one empty frame cut at every offset 0..=144; two declared frames with one present",
     outside="files with more chunks / frames (every read goes through the same exact-length primitive), cuts inside a real "
@@ -220,6 +222,7 @@ PROPS["C19"] = dict(
 
 PROPS["C07"] = dict(
     prefix="c07_",
+    per_harness={r"c07_q_bytes_after_last_frame_unread|c01_q_header_.*": dict(mem_gb=14, timeout=1500)},
     overlays=[("parse", "vk_c07.rs"), ("parse", "vk_c11p.rs"), ("parse", "vk_c15p.rs"), ("parse", "vk_c01p.rs"), ("file", "vk_c02.rs"), ("pixel", "vk_c06x.rs")],
     extra_harnesses=dict(
         quick=["c11_q_new_palette_then_legacy", "c11_q_legacy_then_new_palette", "c15_q_header_pixel_ratio_and_depth",
